@@ -482,13 +482,13 @@ func (self *SrcParam) format(printer *printer, modeWidth, typeWidth int) {
 	for i := 0; i < typeWidth-len(string(self.Lang)); i++ {
 		printer.mustWriteRune(' ')
 	}
-	printer.mustWriteString(` "`)
-	printer.mustWriteString(self.Path)
-	for _, arg := range self.Args {
-		printer.mustWriteRune(' ')
-		printer.mustWriteString(arg)
+	printer.mustWriteRune(' ')
+	cmd := self.Path
+	if len(self.Args) > 0 {
+		cmd = strings.Join(append([]string{self.Path}, self.Args...), " ")
 	}
-	printer.mustWriteString("\",\n")
+	quoteString(printer, cmd)
+	printer.mustWriteString(",\n")
 }
 
 // Callable
